@@ -172,3 +172,21 @@ Print Assumptions equal_strip_sites_pass_bound.
 Theorem analyze_cycles_increment_depth : graph_ok analyze_nfun analyze_edges = true /\ (25 <= length analyze_edges)%nat.
 Proof. exact analyze_cycles_increment_depth_proof. Qed.
 Print Assumptions analyze_cycles_increment_depth.
+
+(** with a rank certificate a chain of analyzer calls that all pass depth on unchanged is no longer than the rank of
+    the function it starts in (for any graph); the certificate regenerated for THIS eval.c checks *)
+Theorem same_chain_bounded : forall (rank : nat -> nat) (es : list edge),
+  forallb (edge_ok rank) es = true -> forall p v, same_chain es v p -> (length p <= rank v)%nat.
+Proof. exact same_chain_bounded_proof. Qed.
+Print Assumptions same_chain_bounded.
+
+Theorem analyze_same_chain_bounded : forall p v, same_chain analyze_edges v p -> (length p <= nth v analyze_rank 0)%nat.
+Proof. exact analyze_same_chain_bounded_proof. Qed.
+Print Assumptions analyze_same_chain_bounded.
+
+Theorem equal_recursion_bounded : forall (p : list site) f',
+  (forall s, In s p -> In s (map snd equal_sites)) ->
+  run (Z.to_nat equal_depth + 1) (Bounded 0) p = Some f' ->
+  Z.of_nat (length p) <= equal_depth + 4.
+Proof. exact equal_recursion_bounded_proof. Qed.
+Print Assumptions equal_recursion_bounded.
